@@ -583,7 +583,7 @@ pub async fn run_tls_sequence(schemes: &[&'static str], host: &'static str, h2: 
 // C20 end to end
 // ---------------------------------------------------------------------------------------------
 
-const RULE20E: &str = "e2e part: real TLS hyperdriver server with with_tls_connection_info + ValidateSNI in front of the handler; the client picks the SNI (URI host) and the Host header independently, HTTP/1.1 and HTTP/2; oracle = handler reached (and validated flag set) iff Host equals SNI case-insensitively ignoring the port; non-trivial = every case";
+const RULE20E: &str = "stack part: Acceptor::with_tls -> TlsConnectionInfoLayer -> ValidateSNI driven by hand, requests handed over before / after the handshake, two at a time, one cancelled; e2e part: real TLS hyperdriver server with with_tls_connection_info + ValidateSNI in front of the handler; the client picks the SNI (URI host) and the Host header independently, HTTP/1.1 and HTTP/2; oracle = handler reached (and validated flag set) iff Host equals SNI case-insensitively ignoring the port; non-trivial = every case";
 
 #[derive(Clone, Debug, Hash)]
 pub struct SniCaseE {
@@ -624,6 +624,110 @@ pub async fn run_sni_case(c: &SniCaseE) -> (Result<u16, String>, Vec<Handled>) {
     let handled = log.handled.lock().unwrap().clone();
     h.join.abort();
     (r, handled)
+}
+
+/// The public server-side stack `Acceptor::with_tls` -> `TlsConnectionInfoLayer` -> `ValidateSNI` driven by hand: requests
+/// are handed to the per-connection service before the TLS handshake has been driven, two at a time or with one of them
+/// cancelled. Whatever the order, a request is forwarded iff its Host equals the server name of the connection.
+pub async fn run_sni_stack_case(order: &'static str, hosts: &[&'static str]) -> Vec<(String, String)> {
+    use hyperdriver::client::conn::transport::duplex::DuplexTransport;
+    use hyperdriver::client::conn::transport::TransportExt as _;
+    use hyperdriver::info::TlsConnectionInfo;
+    use hyperdriver::server::conn::tls::sni::ValidateSNI;
+    use hyperdriver::server::conn::tls::TlsConnectionInfoLayer;
+    use hyperdriver::server::conn::AcceptExt as _;
+    use hyperdriver::stream::tls::TlsHandshakeStream as _;
+    use tower::make::Shared;
+    use tower::{Layer, Service};
+    install_crypto();
+    let mut problems = Vec::new();
+    let seen: Arc<Mutex<Vec<(String, Option<TlsConnectionInfo>)>>> = Arc::new(Mutex::new(Vec::new()));
+    let app = {
+        let seen = seen.clone();
+        tower::service_fn(move |req: Request<()>| {
+            let seen = seen.clone();
+            async move {
+                let host = req.headers().get(http::header::HOST).map(|h| h.to_str().unwrap().to_owned()).unwrap_or_default();
+                let info = req.extensions().get::<TlsConnectionInfo>().cloned();
+                seen.lock().unwrap().push((host, info));
+                Ok::<_, std::convert::Infallible>(http::Response::new(()))
+            }
+        })
+    };
+    let (duplex_client, incoming) = hyperdriver::stream::duplex::pair();
+    let acceptor = hyperdriver::server::conn::Acceptor::from(incoming).with_tls(Arc::new(server_tls("good", &["http/1.1"])));
+    let client = tokio::spawn(async move {
+        let mut transport = DuplexTransport::new(1024, duplex_client).with_tls(Arc::new(client_tls(&["http/1.1"])));
+        let mut stream = transport.connect_with("https://example.com").await.map_err(|e| e.to_string())?;
+        stream.finish_handshake().await.map_err(|e| e.to_string())?;
+        Ok::<_, String>(stream)
+    });
+    let mut conn = match tokio::time::timeout(Duration::from_secs(600), acceptor.accept()).await {
+        Ok(Ok(c)) => c,
+        other => return vec![("stack:accept-failed".into(), format!("{:?}", other.map(|r| r.map(|_| ()).map_err(|e| e.to_string()))))],
+    };
+    let mut make_service = TlsConnectionInfoLayer::new().layer(Shared::new(ValidateSNI.layer(app)));
+    let mut svc = match Service::call(&mut make_service, &conn).await {
+        Ok(s) => s,
+        Err(_) => return vec![("stack:make-service-failed".into(), String::new())],
+    };
+    let request = |host: &str| Request::builder().uri("/").header(http::header::HOST, host).body(()).unwrap();
+    let noop = futures_util::task::noop_waker_ref();
+    // requests handed over before the handshake
+    let mut early: Vec<(&'static str, Pin<Box<dyn Future<Output = bool> + Send>>)> = Vec::new();
+    if order != "sequential-after-handshake" {
+        for h in hosts {
+            let f = svc.call(request(h));
+            let mut f: Pin<Box<dyn Future<Output = bool> + Send>> = Box::pin(async move { f.await.is_ok() });
+            // one poll before the handshake; a request that resolves already here keeps its result
+            match f.as_mut().poll(&mut Context::from_waker(noop)) {
+                Poll::Ready(v) => early.push((h, Box::pin(std::future::ready(v)))),
+                Poll::Pending => early.push((h, f)),
+            }
+        }
+        if order == "first-cancelled-before-handshake" && !early.is_empty() {
+            early.remove(0);
+        }
+    }
+    let hs = tokio::time::timeout(Duration::from_secs(600), conn.finish_handshake()).await;
+    if !matches!(hs, Ok(Ok(()))) {
+        return vec![("stack:handshake-failed".into(), format!("{:?}", hs.map(|r| r.map_err(|e| e.to_string()))))];
+    }
+    let _client_stream = tokio::time::timeout(Duration::from_secs(600), client).await;
+    let mut outcomes: Vec<(&'static str, Option<bool>)> = Vec::new();
+    // the early requests are concurrent tasks of the connection: drive them together (one of them may hold a place in
+    // a lock queue that another needs)
+    let (names, futs): (Vec<_>, Vec<_>) = early.into_iter().unzip();
+    let done = futures_util::future::join_all(futs.into_iter().map(|f| async move { tokio::time::timeout(Duration::from_secs(600), f).await.ok() })).await;
+    for (h, o) in names.into_iter().zip(done) {
+        outcomes.push((h, o));
+    }
+    // and the same hosts again afterwards, one after the other
+    for h in hosts {
+        let f = svc.call(request(h));
+        outcomes.push((h, tokio::time::timeout(Duration::from_secs(600), async move { f.await.is_ok() }).await.ok()));
+    }
+    if std::env::var("HDV_DEBUG").is_ok() {
+        eprintln!("order={order} hosts={hosts:?} outcomes={outcomes:?} seen={:?}", seen.lock().unwrap().iter().map(|(h, i)| (h.clone(), i.as_ref().map(|i| i.validated_server_name))).collect::<Vec<_>>());
+    }
+    let name = |h: &str| h.rsplit_once(':').filter(|(_, p)| p.chars().all(|c| c.is_ascii_digit())).map(|(a, _)| a.to_string()).unwrap_or(h.to_string()).to_ascii_lowercase();
+    for (h, o) in &outcomes {
+        let equal = name(h) == "example.com";
+        match o {
+            None => problems.push((format!("stack:request-never-resolves:{order}"), format!("Host {h}"))),
+            Some(true) if !equal => problems.push((format!("stack:forwarded-although-host-differs:{order}"), format!("Host {h} on a connection with server name example.com was forwarded"))),
+            Some(false) if equal => problems.push((format!("stack:rejected-although-host-equals-sni:{order}"), format!("Host {h} on a connection with server name example.com was rejected"))),
+            _ => {}
+        }
+    }
+    for (h, info) in seen.lock().unwrap().iter() {
+        if name(h) != "example.com" {
+            problems.push((format!("stack:application-saw-mismatching-host:{order}"), format!("the application received a request for {h} (TLS info {:?})", info.as_ref().map(|i| (i.server_name.clone(), i.validated_server_name)))));
+        } else if !info.as_ref().map(|i| i.validated_server_name).unwrap_or(false) {
+            problems.push((format!("stack:forwarded-without-validated-flag:{order}"), format!("the application received {h} with TLS info {:?}", info.as_ref().map(|i| (i.server_name.clone(), i.validated_server_name)))));
+        }
+    }
+    problems
 }
 
 pub fn run(args: &Args) -> Report {
@@ -722,6 +826,35 @@ pub fn run(args: &Args) -> Report {
             }
             if p.samples.len() < 3 {
                 p.sample(json!({"case": replay, "handler_reached": reached, "client_result": res.as_ref().map_err(|e| e.chars().take(100).collect::<String>())}));
+            }
+        });
+        rep.merge(part);
+    }
+    if args.wants("C20") && args.replay.is_none() {
+        let mut cs: Vec<(&'static str, Vec<&'static str>)> = Vec::new();
+        for order in ["sequential-after-handshake", "all-before-handshake", "first-cancelled-before-handshake"] {
+            for hosts in [vec!["evil.example.org", "evil.example.org"], vec!["example.com", "evil.example.org"], vec!["evil.example.org", "Example.COM:8443"], vec!["example.com", "EXAMPLE.com"], vec!["other.test", "example.com", "a.test"]] {
+                cs.push((order, hosts));
+            }
+        }
+        let cr = &cs;
+        let part = crate::report::parallel(args.threads, cs.len() as u64, "tlsworld", |i, r| {
+            let (order, hosts) = &cr[i as usize];
+            let rt = tokio::runtime::Builder::new_current_thread().enable_all().start_paused(true).build().unwrap();
+            // the stack is driven inside this thread: a panic of the library surfaces here
+            let problems = match std::panic::catch_unwind(std::panic::AssertUnwindSafe(|| rt.block_on(run_sni_stack_case(order, hosts)))) {
+                Ok(p) => p,
+                Err(e) => {
+                    let msg = e.downcast_ref::<String>().cloned().or_else(|| e.downcast_ref::<&str>().map(|s| s.to_string())).unwrap_or_default();
+                    vec![(format!("stack:panicked:{order}"), format!("the connection's service stack panicked: {msg}"))]
+                }
+            };
+            let p = r.prop("C20", RULE20E);
+            let replay = json!({"engine": "tlsworld", "sni_stack_case": {"order": order, "hosts": hosts}});
+            p.eval(Some(hash_of(&format!("{replay}"))));
+            p.count("stack_cases", 1);
+            for (sig, msg) in problems {
+                p.violation(sig, format!("{msg} | {replay}"), replay.clone());
             }
         });
         rep.merge(part);
